@@ -314,6 +314,7 @@ def run(tier, seed, out, drv, facts):
     # TypeVars made by typing_extensions (PEP 696: they carry `__default__`; on this interpreter they are ordinary
     # typing.TypeVar instances): a default does not restrict anything
     check_pep696_typevars(out, ucats[:6])
+    nested_after_transparent(out)
     # ---- scalars
     sspecs, smeta = [], []
     for cat in CATS:
@@ -328,6 +329,37 @@ def run(tier, seed, out, drv, facts):
         check_scalar_law(out, cat, s, dims)
     # ---- aliases
     check_aliases(out)
+
+
+def nested_after_transparent(out):
+    """an annotation used as `-> Iterator[X]` of an old-style decorated generator is made transparent by the library (known
+    finding F2, about X itself). Annotations that EXTEND X — created before or after — are other annotation objects: they
+    still accept exactly what the flat equivalent accepts"""
+    import typing
+
+    import jaxtyping as jt
+    import typeguard
+
+    Duck = usercats.Duck
+    for k, (outer, inner) in enumerate((("Float", "Float"), ("Shaped", "Float"), ("Float", "Shaped"))):
+        Inner = getattr(jt, inner)[Duck, f"h{k} w{k}"]
+        before = getattr(jt, outer)[Inner, f"b{k}"]
+
+        @jt.jaxtyped
+        @typeguard.typechecked
+        def frames(n: int) -> typing.Iterator[Inner]:
+            yield None
+
+        after = getattr(jt, outer)[Inner, f"b{k}"]
+        cat = outer if outer != "Shaped" else inner
+        flat = getattr(jt, cat)[Duck, f"b{k} h{k} w{k}"]
+        fv = vector(flat)
+        for name, ann in (("created before the generator", before), ("created after the generator", after)):
+            v = vector(ann)
+            out.case(("nested-after-transparent", outer, inner, name), True, sample={"outer": outer, "inner": inner, "when": name, "vector": v[:40]})
+            if v != fv:
+                out.violation(f"nested:after-transparent:{outer}[{inner}]", f"{outer}[{inner}[Duck, 'h w'], 'b'] ({name} that uses the inner annotation as its return annotation) gives {v[:60]} "
+                              f"on the probe values, the flat equivalent {cat}[Duck, 'b h w'] gives {fv[:60]}", {"nested_after_transparent": [outer, inner]})
 
 
 def check_pep696_typevars(out, cats):
@@ -379,6 +411,8 @@ def replay(rep, out, drv, facts):
         check_union_law(out, rep["cat"], "replay", rep["aty"], rep["dims"])
     elif "alias" in rep:
         check_aliases(out)
+    elif "nested_after_transparent" in rep:
+        nested_after_transparent(out)
     elif "pep696" in rep:
         check_pep696_typevars(out, [rep["cat"]])
     elif "spec" in rep:
